@@ -25,6 +25,7 @@ def run(repo, run, tier):
     capacity(repo, run, m)
     stores(repo, run, m)
     orientation(repo, run, m)
+    restore(repo, run, m)
 
 
 # ------------------------------------------------------------------------------------------------
@@ -368,3 +369,36 @@ def orientation(repo, run, m):
                                           "call's target: integrate(t) against the direction of (t0, tf) steps the wrong way" % (
                                               " (tf, t0)" if setter_by_span else ""),
                        text="dt orientation at `%s`" % src(node)[:100])
+
+
+def restore(repo, run, m):
+    """events branch: the step that was rolled back for the event search is re-committed with exactly the values it had"""
+    rid = run.rule("C03.6", "when events are tracked the rolled-back step is re-committed with the time and state saved from the committed row "
+                            "(next_time = t[counter], next_state = y[counter], read after the commit and before the rollback), followed by counter += 1", floor=2)
+    from ..imodel import path_key
+    restores = [w for w in m.row_writes if w is not m.commit_t and w is not m.commit_y]
+    if not restores:
+        run.judged(rid, "no re-commit writes (events branch absent)", nontrivial=False)
+        run.judged(rid, "no re-commit writes (events branch absent)", nontrivial=False)
+        return
+    decs = [i for i in m.counter_incs if isinstance(i.op, ast.Sub)]
+    for w in restores:
+        buf = "__t" if is_t_buf(w.targets[0].value) else "__y"
+        v = w.value
+        ok = isinstance(v, ast.Name)
+        if ok:
+            defs = [st for st in walk_no_nested(m.loop) if isinstance(st, ast.Assign) and isinstance(st.targets[0], ast.Name) and st.targets[0].id == v.id]
+            ok = len(defs) == 1 and src(defs[0].value) == "self.%s[self.counter]" % buf
+            if ok:
+                k = path_key(defs[0], m.fn)
+                ok = path_key(m.commit_inc, m.fn) < k and all(k < path_key(d, m.fn) for d in decs) and k < path_key(w, m.fn)
+        run.judged(rid, "re-commit %s from `%s`" % (src(w.targets[0]), src(v)), ok=ok)
+        if not ok:
+            run.report("C03.6", DS, w, "the row re-committed after the event search is not the saved committed row (self.%s[counter] read after the commit and before the "
+                                       "rollback): times and states would no longer pair up when events are tracked" % buf)
+    incs_after = [i for i in m.counter_incs if isinstance(i.op, ast.Add) and i is not m.commit_inc and any(
+        i._parent is w._parent for w in restores)]
+    ok = len(incs_after) == 1 and all(path_key(w, m.fn) < path_key(incs_after[0], m.fn) for w in restores)
+    run.judged(rid, "re-commit followed by counter += 1 in the same block", ok=ok)
+    if not ok:
+        run.report("C03.6", DS, restores[0], "the re-committed row is not followed by `counter += 1` in the same block", text="re-commit increment")
